@@ -244,3 +244,116 @@ func (p *Program) inFile(fn *ssa.Function, file string) bool {
 	}
 	return false
 }
+
+// literalRangeElems: v is the element variable of a range loop over a slice literal `[]T{e0, e1, …}`
+// built in the same function; returns the literal's elements in index order (the order the loop visits them).
+func literalRangeElems(fi *FnInfo, v ssa.Value) []ssa.Value {
+	sl, _, ok := rangeElem(fi, v)
+	if !ok {
+		return nil
+	}
+	s, ok := strip(sl).(*ssa.Slice)
+	if !ok || s.Low != nil || s.High != nil {
+		return nil
+	}
+	al, ok := s.X.(*ssa.Alloc)
+	if !ok {
+		return nil
+	}
+	at, ok := al.Type().Underlying().(*types.Pointer).Elem().Underlying().(*types.Array)
+	if !ok || at.Len() > 16 {
+		return nil
+	}
+	elems := make([]ssa.Value, at.Len())
+	for _, r := range *al.Referrers() {
+		ia, ok := r.(*ssa.IndexAddr)
+		if !ok {
+			continue
+		}
+		k, ok := ia.Index.(*ssa.Const)
+		if !ok || k.Int64() < 0 || k.Int64() >= at.Len() {
+			return nil
+		}
+		for _, r2 := range *ia.Referrers() {
+			if st, ok := r2.(*ssa.Store); ok && st.Addr == ssa.Value(ia) {
+				if elems[k.Int64()] != nil {
+					return nil
+				}
+				elems[k.Int64()] = st.Val
+			}
+		}
+	}
+	for _, e := range elems {
+		if e == nil {
+			return nil
+		}
+	}
+	return elems
+}
+
+// sweep: one application of produceSet.eachPartition to a produce set with a callback; a call inside a range
+// loop over a slice literal of sets stands for one sweep per element, in element order.
+type sweep struct {
+	call Item
+	recv ssa.Value
+	cb   *ssa.Function
+	idx  int // position within the literal loop (0 for a plain call)
+}
+
+func (p *Program) sweepsOf(fn *ssa.Function) []sweep {
+	fi := Info(fn)
+	var out []sweep
+	for _, s := range fi.Find(p.CallTo("produceSet.eachPartition")) {
+		cc, _ := callCommon(s)
+		if len(cc.Args) < 2 {
+			continue
+		}
+		cb := p.FuncOfValue(cc.Args[1])
+		if elems := literalRangeElems(fi, cc.Args[0]); elems != nil {
+			// the loop body runs once per element of the literal: the literal's construction stands for all of them
+			// (the CFG has a zero-iteration path around the body that cannot be taken)
+			anchor := s
+			if sl, _, ok := rangeElem(fi, cc.Args[0]); ok {
+				if in, ok := strip(sl).(ssa.Instruction); ok {
+					anchor = Item{In: in}
+				}
+			}
+			for i, e := range elems {
+				out = append(out, sweep{anchor, e, cb, i})
+			}
+			continue
+		}
+		out = append(out, sweep{s, cc.Args[0], cb, 0})
+	}
+	return out
+}
+
+// withHelpers: fn and the functions of the package it calls statically, to the given depth (the helpers a
+// few statements may have been extracted into).
+func (p *Program) withHelpers(fn *ssa.Function, depth int) []*ssa.Function {
+	seen := map[*ssa.Function]bool{fn: true}
+	out := []*ssa.Function{fn}
+	frontier := []*ssa.Function{fn}
+	for d := 0; d < depth; d++ {
+		var next []*ssa.Function
+		for _, f := range frontier {
+			for _, b := range f.Blocks {
+				for _, in := range b.Instrs {
+					cl, ok := in.(*ssa.Call)
+					if !ok || cl.Call.IsInvoke() {
+						continue
+					}
+					g := cl.Call.StaticCallee()
+					if g == nil || seen[g] || len(g.Blocks) == 0 || (g.Pkg != p.Sarama && g.Pkg != p.Mocks) {
+						continue
+					}
+					seen[g] = true
+					out = append(out, g)
+					next = append(next, g)
+				}
+			}
+		}
+		frontier = next
+	}
+	return out
+}
